@@ -3,6 +3,7 @@ package c13
 import (
 	"bytes"
 	"fmt"
+	"strings"
 
 	pg_query "github.com/cossacklabs/pg_query_go/v5"
 	"google.golang.org/protobuf/reflect/protoreflect"
@@ -15,9 +16,10 @@ type pgLeaf struct {
 }
 
 type pgDiffResult struct {
-	Leaves   []pgLeaf
-	Rewrites []string
-	Other    []string
+	Leaves     []pgLeaf
+	Rewrites   []string
+	Other      []string
+	DoubleWrap int // search rewrite applied to an operand that already is a substr()/substring() call
 }
 
 func (d *pgDiffResult) clean() bool {
@@ -159,7 +161,17 @@ func (d *pgDiffer) substrOf(n *pg_query.Node) *pg_query.Node {
 
 // tryRewrite recognises hmac/decryptor/postgresql.HashQuery.OnQuery's rewriting of one comparison.
 func (d *pgDiffer) tryRewrite(a, b *pg_query.A_Expr, path string) bool {
-	if a.Lexpr == nil || a.Lexpr.GetColumnRef() == nil || b.Lexpr == nil {
+	if a.Lexpr == nil || b.Lexpr == nil {
+		return false
+	}
+	if a.Lexpr.GetColumnRef() == nil {
+		// an operand that already is substr(col, ...) / substring(col, ...) wrapped once more: not the documented
+		// rewriting (column -> substr(column, 1, N)); recognised only to give the violation a stable name
+		if fc := a.Lexpr.GetFuncCall(); fc != nil && len(fc.Funcname) == 1 && strings.HasPrefix(fc.Funcname[0].GetString_().GetSval(), "substr") {
+			if nf := b.Lexpr.GetFuncCall(); nf != nil && len(nf.Args) == 3 && nf.Args[0].GetFuncCall() != nil {
+				d.res.DoubleWrap++
+			}
+		}
 		return false
 	}
 	col := d.substrOf(b.Lexpr)
